@@ -25,7 +25,7 @@ ASSUMPTIONS = [
     "family membership is asserted there",
     "ValueError for unknown ids / undecodable values is documented behaviour and not a network failure",
 ]
-MUST = ["os_error_on_send", "os_error_on_receive", "idle_error_keepalive", "tcp_connect_failure", "cfc_checked",
+MUST = ["damaged_frames_not_a_refusal", "os_error_on_send", "os_error_on_receive", "idle_error_keepalive", "tcp_connect_failure", "cfc_checked",
         "cfc_after_rejection", "api_calls_under_fault", "ident_payloads", "discover_payloads", "failed_exception_seen",
         "rejected_exception_seen"]
 EXHAUSTIVE = {"quick": False, "thorough": False}
@@ -46,6 +46,7 @@ def alpha_for(T):
     a.append(["nowerr", errno.EHOSTUNREACH, 0.0])
     a.append(["nowexc", 4, 1.2 * T])       # a late exception frame for an already completed request (idle, keep-alive)
     a.append(["nowexc", 6, 0.0])
+    a.append("excbad")                      # an exception frame damaged in transit (wrong checksum)
     return a
 
 
@@ -108,6 +109,16 @@ def run_a(sc, part):
         part.count("idle_error_keepalive")
     if any(e[1] == "connect" and e[3] != "ok" for e in run.events):
         part.count("tcp_connect_failure")
+    # only damaged frames / silence reached the client during request 1: the inverter refused nothing
+    first = run.calls[0] if run.calls else None
+    only_damaged = tag == "udp" and sc["fullscript"] and all(x in ("drop", "garbage", "short", "badsum", "excbad") for x in
+                                                            (y if isinstance(y, str) else y[0] for y in sc["fullscript"]))
+    if first and only_damaged and first["outcome"] == "RequestRejectedException":
+        vs.append(("C09/udp/rejected-without-refusal",
+                   f"request ended RequestRejectedException('{first.get('msg')}') although only silence / damaged datagrams were received "
+                   f"(script {sc['fullscript']})"))
+    elif first and only_damaged:
+        part.count("damaged_frames_not_a_refusal")
     part.see(repr(("A", tag, sc["keep_alive"], sc["R"], sc["entry"], tuple(c["outcome"] for c in run.calls),
                    tuple(k for k in evk if k in ("tx", "txerr", "rx", "rxerr", "eof", "connect")))))
     for key, msg in vs:
@@ -290,6 +301,12 @@ def payload(rnd, n, style):
         return bytes(rnd.randrange(0, 32) for _ in range(n))
     if style == "mixed":
         return bytes(rnd.choice((rnd.randrange(32, 127), rnd.randrange(256), 0, 0xD8, 0xDC, 0xFF)) for _ in range(n))
+    if style == "padded":       # printable fields of every length, space / NUL padded (firmware '1010 ', model 'GW5K   ' ...)
+        out = bytearray()
+        while len(out) < n:
+            ln = rnd.randrange(0, 8)
+            out += bytes(rnd.choice(b"0123456789ABCDEFGHKSW-") for _ in range(ln)) + rnd.choice((b" ", b"  ", b"\x00", b"     "))
+        return bytes(out[:n])
     if style == "surrogate":
         b = bytearray(rnd.randrange(32, 127) for _ in range(n))
         for i in range(0, n - 1, 2):
@@ -407,7 +424,7 @@ def run_shard(spec):
         rnd = random.Random(spec["seed"])
         for i in range(spec["n"]):
             target = rnd.choice(("ET", "DT", "ES", "discover"))
-            style = rnd.choice(("random", "nonascii", "control", "mixed", "surrogate"))
+            style = rnd.choice(("random", "nonascii", "control", "mixed", "surrogate", "padded", "padded"))
             case = {"target": target, "style": style, "seed": f"{spec['seed']}:{i}"}
             if target in ("ES", "discover"):
                 case["length"] = rnd.choice((0, 1, 4, 5, 14, 15, 30, 31, 46, 47, 50, 62, 63, 64, 65, 100, 255))
